@@ -640,7 +640,7 @@ pub fn gen_program(r: &mut Rng, p: &GenParams) -> Program {
 pub fn gen_family(r: &mut Rng, which: u64, scale: u32) -> Program {
     let mut prog = Program::default();
     let rd = |d: NodeId| Op::Read(d);
-    match which % 6 {
+    match which % 7 {
         0 => {
             // In0 -> F0 -> N0 -> F1 -> N1 ... chain of firewalls with absorbing combines
             let mut prev = nid(Kind::In, 0);
@@ -693,6 +693,21 @@ pub fn gen_family(r: &mut Rng, which: u64, scale: u32) -> Program {
             prog.nodes.insert(nid(Kind::N, 0), NodeSpec { ops: vec![Op::Unordered(deps.clone())], combine: Combine::Sum });
             prog.nodes.insert(nid(Kind::F, 0), NodeSpec { ops: vec![Op::Join(deps)], combine: Combine::Bucket(5) });
             prog.nodes.insert(nid(Kind::N, 100_000), NodeSpec { ops: vec![rd(nid(Kind::F, 0)), rd(nid(Kind::N, 0))], combine: Combine::Sum });
+        }
+        6 => {
+            // a chain of normal queries above a leaf that reaches a firewall only through a
+            // conditional read, with absorbing combines: the leaf can switch onto (and off) the
+            // firewall branch without changing its value, so the queries above it are *cleaned*,
+            // not recomputed, and have to learn about the new firewall below them through the
+            // transitive-firewall-callee bookkeeping alone
+            prog.nodes.insert(nid(Kind::F, 0), NodeSpec { ops: vec![rd(nid(Kind::In, 1))], combine: Combine::SumPlus(r.range(0, 3)) });
+            let leaf_combine = match r.below(3) { 0 => Combine::Clamp(0, 2), 1 => Combine::Bucket(3), _ => Combine::Parity };
+            let pred = match r.below(3) { 0 => Pred::Gt(0), 1 => Pred::Even, _ => Pred::Zero };
+            prog.nodes.insert(nid(Kind::N, 0), NodeSpec { ops: vec![rd(nid(Kind::In, 0)), Op::ReadIf { on: 0, pred, then: nid(Kind::F, 0), els: if r.chance(1, 2) { Some(nid(Kind::In, 2)) } else { None } }], combine: leaf_combine });
+            for i in 1..=scale.max(2) {
+                let c = if i % 2 == 0 { Combine::SumPlus(1) } else { Combine::Scale(10, i64::from(i)) };
+                prog.nodes.insert(nid(Kind::N, i), NodeSpec { ops: vec![rd(nid(Kind::N, i - 1))], combine: c });
+            }
         }
         _ => {
             // the "fresh reader above an absorbed firewall" family (P-1 shape):
